@@ -20,8 +20,10 @@ def chains():
     """Every chain  [-] x op y op z [op w]  over the arithmetic operators, with optional unary minus
     at the front, plus bracketed variants."""
     out = []
-    opnds = ['a', 'b', 'c', '2']
-    for n in (1, 2, 3):
+    for opnds in (['a', 'b', 'c', '2'], ['2', 'a', '3', 'b'], ['1.5', '2', 'b', 'a']):
+      for n in (1, 2, 3):
+        if opnds[0] != 'a' and n == 3:
+            continue
         for ops in itertools.product(ARITH, repeat=n):
             body = opnds[0]
             for i, o in enumerate(ops):
